@@ -35,9 +35,11 @@ let () =
       let p = bytes_of_hex p and key = bytes_of_hex key and out = bytes_of_hex out in
       let expect = mask_spec p key BinNums.N0 in
       if out <> expect then Viol "CipherReader output differs from the one-shot mask"
-      else if e <> (if tail = "fail" then "fail" else "eof") then Viol "CipherReader final error is not the source's"
+      else if e <> (if tail = "fail" || tail = "faildata" then "fail" else "eof") then Viol "CipherReader final error is not the source's"
       else if bytes_of_hex again <> expect then Viol "CipherReader.Reset does not restart the key stream"
       else begin
+        (* a source that returns its last bytes together with the error delivers the same bytes and error *)
+        let tail = (match tail with "eofdata" -> "eof" | "faildata" -> "fail" | t -> t) in
         let s = { chunks = chunk_by (sizes_of_spec spec (List.length p)) p; tl = (if tail = "fail" then TFail else TEOF) } in
         let bl = List.map n_of_int (ints_spec bufs) in
         let (mo, me) = cr_drive (nat_of_int (List.length p + 2)) bl bl { cr_src = s; cr_key = key; cr_pos = BinNums.N0 } [] in
@@ -57,6 +59,13 @@ let () =
         let mw = List.filter (fun x -> x <> []) (cw_writes pieces { cw_key = key; cw_pos = BinNums.N0 }) in
         if mw <> writes then Diff "model cipher writer differs (per-call bytes)" else Pass (List.length p >= 2)
       end
+    | _ -> Diff "malformed line");
+  register "C02WS" (fun i o -> match i, o with
+    | [p; key; _; _], [got] ->
+      let p = bytes_of_hex p and key = bytes_of_hex key in
+      if bytes_of_hex got <> mask_spec p key BinNums.N0 then
+        Viol "CipherWriter over a destination that accepts a write partially: resumed stream is not the one-shot mask"
+      else Pass (List.length p >= 2)
     | _ -> Diff "malformed line");
   register "C02F" (fun i o -> match i with
     | name :: rest ->
